@@ -133,6 +133,29 @@ func checkC06(sc *Scenario, res *RunResult, t *Truth) []Violation {
 				}
 			}
 		}
+		// a shutdown command that cannot even be started has failed: SIGKILL is owed
+		if p.StopCmd != "" {
+			for i := range t.Events {
+				e := &t.Events[i]
+				if e.Kind != "os.execfail" || e.Subj != "simstop:"+p.StopCmd {
+					continue
+				}
+				for _, L := range t.ByRep[p.Name] {
+					if !L.AliveAt(e.Seq) || (L.ExitSeq >= 0 && L.ExitT <= e.T) {
+						continue
+					}
+					killed := false
+					for _, k := range L.Kills {
+						if k.Sig == 9 && k.Seq > e.Seq {
+							killed = true
+						}
+					}
+					if !killed && t.EndT-e.T > time.Second {
+						add("no-sigkill-after-failed-stop-command", "not-started", fmt.Sprintf("the shutdown command of %s could not be started (t=%v: %s) while the process was alive, but no SIGKILL followed", p.Name, e.T, e.A), e.Seq)
+					}
+				}
+			}
+		}
 		// shutdown command: environment and working directory of the process; SIGKILL only if it fails
 		if p.StopCmd != "" {
 			for _, run := range stopCmdRuns[p.StopCmd] {
@@ -307,6 +330,9 @@ func checkC06(sc *Scenario, res *RunResult, t *Truth) []Violation {
 					}
 					// owed: it does not ignore the stop signal, or SIGKILL to the group was due
 					killDue := p.StopTimeout != nil && (parentIgnores || p.StopCmd != "")
+					if ms := scriptOfInst(sc, t, m); ms != nil && ms.HoldsPipes && p.StopTimeout != nil && !p.ParentOnly {
+						killDue = true // the supervisor still waits for the pipes it holds
+					}
 					if p.StopCmd != "" {
 						continue // the command decides what happens to the tree
 					}
@@ -415,6 +441,12 @@ func genC06(r *R, sc *Scenario, tier string) {
 			}
 			root.Children = append(root.Children, ch)
 		}
+		if !parentIgnores && p.StopTimeout != nil && !p.ParentOnly && sig != 9 && sig >= 1 && sig <= 31 && r.P(250) {
+			// the parent obeys the stop signal, a child that has inherited its pipes does not:
+			// the supervisor is still waiting for the output to end when the time-out expires,
+			// and the SIGKILL to the group is what ends the child
+			root.Children = append(root.Children, simos.Script{LifeMs: -1, Ignore: []int{sig}, HoldsPipes: true})
+		}
 		launches := []simos.Script{root, root, root}
 		if r.P(250) {
 			// the first launch ends by itself, so the stop meets a command the restart policy
@@ -428,6 +460,16 @@ func genC06(r *R, sc *Scenario, tier string) {
 		sc.Scripts[p.Token] = &TokenScript{Launches: launches}
 		if r.P(250) {
 			p.StopCmd = p.Token
+			// (the command decides what becomes of the tree: no member that would outlive it)
+			for l := range launches {
+				var keep []simos.Script
+				for _, ch := range launches[l].Children {
+					if !(ch.HoldsPipes && len(ch.Ignore) > 0) {
+						keep = append(keep, ch)
+					}
+				}
+				launches[l].Children = keep
+			}
 			var sc2 simos.Script
 			switch r.Intn(8) {
 			case 0, 1, 2, 3:
@@ -445,6 +487,12 @@ func genC06(r *R, sc *Scenario, tier string) {
 				}
 			default:
 				sc2 = simos.Script{LifeMs: -1} // hangs until its time-out
+				if r.P(400) {
+					sc2.Ignore = []int{15} // ... and would not die of a polite signal either
+				}
+				if r.P(250) {
+					sc2 = simos.Script{StartErr: "no such file or directory"} // cannot even be started
+				}
 			}
 			sc.Scripts["simstop:"+p.Token] = &TokenScript{Launches: []simos.Script{sc2}}
 		}
